@@ -279,3 +279,16 @@ FullSync<'static, ItemType, OgreAllocatorType, BUFFER_SIZE, MAX_STREAMS> {
     type ItemType            = ItemType;
     type DerivedItemType     = OgreArc<ItemType, OgreAllocatorType>;
 }
+
+
+/// verification only: access to the streams bookkeeping of this channel
+#[cfg(feature = "verif")]
+impl<'a, ItemType:          Send + Sync + Debug + 'a,
+         OgreAllocatorType: BoundedOgreAllocator<ItemType> + 'a + Sync + Send,
+         const BUFFER_SIZE: usize,
+         const MAX_STREAMS: usize>
+FullSync<'a, ItemType, OgreAllocatorType, BUFFER_SIZE, MAX_STREAMS> {
+    pub fn verif_streams_manager(&self) -> &StreamsManagerBase<MAX_STREAMS> {
+        &self.streams_manager
+    }
+}
